@@ -209,6 +209,27 @@ def replay_subprocess(path: str, timeout: int = 120) -> tuple[bool, str]:
 # reporting
 
 
+def record_failures(prop, results, path):
+    """Maintenance: dump the failing regions of this run (never read by a check)."""
+    out = {}
+    for r in results:
+        by_key: dict[str, list] = {}
+        for f in r["failures"]:
+            by_key.setdefault(f["key"], []).append(f)
+        for key, fs in by_key.items():
+            out[f"{prop}|{r['unit']}|{key}"] = {
+                "vars": sorted({v for f in fs for v in f["vars"]}),
+                "paths": [f["pc"] for f in fs],
+                "kinds": sorted({f["kind"] for f in fs}),
+                "witnesses": [f["witness"] for f in fs][:3],
+                "details": [f["detail"] for f in fs][:3],
+                "status": sorted({f["status"] for f in fs}),
+            }
+    with open(path, "w") as fh:
+        json.dump(out, fh, indent=0, default=str)
+    print(f"recorded {len(out)} failing regions to {path}")
+
+
 def finish(
     prop: str,
     tier: str,
@@ -223,8 +244,12 @@ def finish(
     functions: list[str] | None = None,
     bounds: dict | None = None,
     known: Known | None = None,
+    record: str | None = None,
 ) -> int:
     known = known or Known()
+    record = record or os.environ.get("VERIF_RECORD")
+    if record:
+        record_failures(prop, results, record)
     harness = [h for r in results for h in r["harness_errors"]]
     incon = [(r["unit"], s, why) for r in results for s, why in r["inconclusive"]]
     fails = [dict(f, unit=r["unit"]) for r in results for f in r["failures"]]
@@ -321,6 +346,9 @@ def finish(
         f"known={sum(len(v) for v in known_hits.values())} new={len(new)} violations={len(violations)} "
         f"inconclusive={len(incon)} wall={ev['wall_s']}s"
     )
+    if os.environ.get("VERIF_VERBOSE"):
+        for r in sorted(results, key=lambda r: -r["wall_s"])[:8]:
+            print(f"   slow unit {r['unit']}: {r['wall_s']:.1f}s paths={r['paths']} queries={r['queries']}")
     if harness or not_reproduced:
         return EXIT_HARNESS
     if violations:
